@@ -269,5 +269,19 @@ Definition jbn_merge_patch_path_heap (h : heap) (root : hnode) (path : list Z) (
   | inr (Some p) => jbn_merge_patch_heap h root p
   end.
 
+(* src/json/iwjsreg.c, iwjsreg_merge(reg, path, json): under the write lock jbn_merge_patch_path(reg->root, path, json, 0);
+   reg->dirty = true on success (left as it was otherwise).  The registry's tree is heap allocated (jbn_from_json(.., 0) /
+   jbl_to_node(.., true, 0)): one allocation per node, per member name and per string value - the shape of jbn_clone(.., 0). *)
+Definition iwjsreg_merge_model (h : heap) (root : hnode) (dirty : bool) (path : list Z) (v : option node)
+  : herr + (rc * heap * hnode * bool) :=
+  match jbn_merge_patch_path_heap h root path v with
+  | inl e => inl e
+  | inr (r, h', root') => inr (r, h', root', if rc_ok r then true else dirty)
+  end.
+(* iwjsreg_merge_str / _i64 / _f64 / _bool / _remove: the value is a node on the caller's stack (no name, no children) *)
+Definition scalar_node (ty : jty) (vi : Z) (vs : list Z) : node := Node 0 [] ty vi vs [].
+Definition iwjsreg_merge_scalar (h : heap) (root : hnode) (dirty : bool) (path : list Z) (ty : jty) (vi : Z) (vs : list Z) :=
+  iwjsreg_merge_model h root dirty path (Some (scalar_node ty vi vs)).
+
 (* building the heap-allocated target the way the harness does (jbn_clone(doc, &h, 0)) *)
 Definition heap_of (doc : node) : heap * hnode := clone_h h_empty false doc.
